@@ -47,4 +47,77 @@ theorem gen_join_rightOuter (nl0 nl1 nr0 nr1 : String) (bl0 bl1 br0 br1 : B) :
       flipN nr0 nl0, flipN nr0 nl1, flipN nr1 nl0, flipN nr1 nl1, flipB br0 bl0, flipB br0 bl1, flipB br1 bl0, flipB br1 bl1, flipN nr1 nr0, flipB br1 br0]) <;>
     (split_ifs with hh <;> first | rfl | (exfalso; exact absurd hh.symm (by assumption)) | (exfalso; exact absurd hh (by assumption)) | simp_all)
 
+
+/-! ### the checked joins (`_join_channels` without channel merging, `_join_observations`): join, then the post-check of the mode -/
+
+/-- the model's checked join of the same four items; `none` = `InvalidWorkspaceOperation` -/
+def modelChecked (j : Join) (nl0 nl1 nr0 nr1 : String) (bl0 bl1 br0 br1 : B) : Option (List (String × B)) :=
+  match joinChecked j [⟨nl0, bl0⟩, ⟨nl1, bl1⟩] [⟨nr0, br0⟩, ⟨nr1, br1⟩] none with
+  | .ok l => some (l.map fun i => (i.name, i.body))
+  | .error _ => none
+
+theorem gen_join_chan_none (nl0 nl1 nr0 nr1 : String) (bl0 bl1 br0 br1 : B) :
+    Gen.join_chan_none nl0 nl1 nr0 nr1 bl0 bl1 br0 br1 = modelChecked .none nl0 nl1 nr0 nr1 bl0 bl1 br0 br1 := by
+  unfold Gen.join_chan_none
+  (split_ifs <;> simp_all [modelChecked, joinChecked, commonNames, hasDupName, joinItems, names, List.foldl,
+      flipN nr0 nl0, flipN nr0 nl1, flipN nr1 nl0, flipN nr1 nl1, flipB br0 bl0, flipB br0 bl1, flipB br1 bl0, flipB br1 bl1, flipN nr1 nr0, flipB br1 br0,
+      flipN nl1 nl0, flipB bl1 bl0]) <;>
+    (split_ifs with hh <;> first | rfl | (exfalso; exact absurd hh.symm (by assumption)) | (exfalso; exact absurd hh (by assumption)) | simp_all [hasDupName, names])
+
+theorem gen_join_chan_outer (nl0 nl1 nr0 nr1 : String) (bl0 bl1 br0 br1 : B) :
+    Gen.join_chan_outer nl0 nl1 nr0 nr1 bl0 bl1 br0 br1 = modelChecked .outer nl0 nl1 nr0 nr1 bl0 bl1 br0 br1 := by
+  unfold Gen.join_chan_outer
+  (split_ifs <;> simp_all [modelChecked, joinChecked, commonNames, hasDupName, joinItems, names, List.foldl,
+      flipN nr0 nl0, flipN nr0 nl1, flipN nr1 nl0, flipN nr1 nl1, flipB br0 bl0, flipB br0 bl1, flipB br1 bl0, flipB br1 bl1, flipN nr1 nr0, flipB br1 br0,
+      flipN nl1 nl0, flipB bl1 bl0]) <;>
+    (split_ifs with hh <;> first | rfl | (exfalso; exact absurd hh.symm (by assumption)) | (exfalso; exact absurd hh (by assumption)) | simp_all [hasDupName, names])
+
+theorem gen_join_chan_leftOuter (nl0 nl1 nr0 nr1 : String) (bl0 bl1 br0 br1 : B) :
+    Gen.join_chan_leftOuter nl0 nl1 nr0 nr1 bl0 bl1 br0 br1 = modelChecked .leftOuter nl0 nl1 nr0 nr1 bl0 bl1 br0 br1 := by
+  unfold Gen.join_chan_leftOuter
+  (split_ifs <;> simp_all [modelChecked, joinChecked, commonNames, hasDupName, joinItems, names, List.foldl,
+      flipN nr0 nl0, flipN nr0 nl1, flipN nr1 nl0, flipN nr1 nl1, flipB br0 bl0, flipB br0 bl1, flipB br1 bl0, flipB br1 bl1, flipN nr1 nr0, flipB br1 br0,
+      flipN nl1 nl0, flipB bl1 bl0]) <;>
+    (split_ifs with hh <;> first | rfl | (exfalso; exact absurd hh.symm (by assumption)) | (exfalso; exact absurd hh (by assumption)) | simp_all [hasDupName, names])
+
+theorem gen_join_chan_rightOuter (nl0 nl1 nr0 nr1 : String) (bl0 bl1 br0 br1 : B) :
+    Gen.join_chan_rightOuter nl0 nl1 nr0 nr1 bl0 bl1 br0 br1 = modelChecked .rightOuter nl0 nl1 nr0 nr1 bl0 bl1 br0 br1 := by
+  unfold Gen.join_chan_rightOuter
+  (split_ifs <;> simp_all [modelChecked, joinChecked, commonNames, hasDupName, joinItems, names, List.foldl,
+      flipN nr0 nl0, flipN nr0 nl1, flipN nr1 nl0, flipN nr1 nl1, flipB br0 bl0, flipB br0 bl1, flipB br1 bl0, flipB br1 bl1, flipN nr1 nr0, flipB br1 br0,
+      flipN nl1 nl0, flipB bl1 bl0]) <;>
+    (split_ifs with hh <;> first | rfl | (exfalso; exact absurd hh.symm (by assumption)) | (exfalso; exact absurd hh (by assumption)) | simp_all [hasDupName, names])
+
+theorem gen_join_obs_none (nl0 nl1 nr0 nr1 : String) (bl0 bl1 br0 br1 : B) :
+    Gen.join_obs_none nl0 nl1 nr0 nr1 bl0 bl1 br0 br1 = modelChecked .none nl0 nl1 nr0 nr1 bl0 bl1 br0 br1 := by
+  unfold Gen.join_obs_none
+  (split_ifs <;> simp_all [modelChecked, joinChecked, commonNames, hasDupName, joinItems, names, List.foldl,
+      flipN nr0 nl0, flipN nr0 nl1, flipN nr1 nl0, flipN nr1 nl1, flipB br0 bl0, flipB br0 bl1, flipB br1 bl0, flipB br1 bl1, flipN nr1 nr0, flipB br1 br0,
+      flipN nl1 nl0, flipB bl1 bl0]) <;>
+    (split_ifs with hh <;> first | rfl | (exfalso; exact absurd hh.symm (by assumption)) | (exfalso; exact absurd hh (by assumption)) | simp_all [hasDupName, names])
+
+theorem gen_join_obs_outer (nl0 nl1 nr0 nr1 : String) (bl0 bl1 br0 br1 : B) :
+    Gen.join_obs_outer nl0 nl1 nr0 nr1 bl0 bl1 br0 br1 = modelChecked .outer nl0 nl1 nr0 nr1 bl0 bl1 br0 br1 := by
+  unfold Gen.join_obs_outer
+  (split_ifs <;> simp_all [modelChecked, joinChecked, commonNames, hasDupName, joinItems, names, List.foldl,
+      flipN nr0 nl0, flipN nr0 nl1, flipN nr1 nl0, flipN nr1 nl1, flipB br0 bl0, flipB br0 bl1, flipB br1 bl0, flipB br1 bl1, flipN nr1 nr0, flipB br1 br0,
+      flipN nl1 nl0, flipB bl1 bl0]) <;>
+    (split_ifs with hh <;> first | rfl | (exfalso; exact absurd hh.symm (by assumption)) | (exfalso; exact absurd hh (by assumption)) | simp_all [hasDupName, names])
+
+theorem gen_join_obs_leftOuter (nl0 nl1 nr0 nr1 : String) (bl0 bl1 br0 br1 : B) :
+    Gen.join_obs_leftOuter nl0 nl1 nr0 nr1 bl0 bl1 br0 br1 = modelChecked .leftOuter nl0 nl1 nr0 nr1 bl0 bl1 br0 br1 := by
+  unfold Gen.join_obs_leftOuter
+  (split_ifs <;> simp_all [modelChecked, joinChecked, commonNames, hasDupName, joinItems, names, List.foldl,
+      flipN nr0 nl0, flipN nr0 nl1, flipN nr1 nl0, flipN nr1 nl1, flipB br0 bl0, flipB br0 bl1, flipB br1 bl0, flipB br1 bl1, flipN nr1 nr0, flipB br1 br0,
+      flipN nl1 nl0, flipB bl1 bl0]) <;>
+    (split_ifs with hh <;> first | rfl | (exfalso; exact absurd hh.symm (by assumption)) | (exfalso; exact absurd hh (by assumption)) | simp_all [hasDupName, names])
+
+theorem gen_join_obs_rightOuter (nl0 nl1 nr0 nr1 : String) (bl0 bl1 br0 br1 : B) :
+    Gen.join_obs_rightOuter nl0 nl1 nr0 nr1 bl0 bl1 br0 br1 = modelChecked .rightOuter nl0 nl1 nr0 nr1 bl0 bl1 br0 br1 := by
+  unfold Gen.join_obs_rightOuter
+  (split_ifs <;> simp_all [modelChecked, joinChecked, commonNames, hasDupName, joinItems, names, List.foldl,
+      flipN nr0 nl0, flipN nr0 nl1, flipN nr1 nl0, flipN nr1 nl1, flipB br0 bl0, flipB br0 bl1, flipB br1 bl0, flipB br1 bl1, flipN nr1 nr0, flipB br1 br0,
+      flipN nl1 nl0, flipB bl1 bl0]) <;>
+    (split_ifs with hh <;> first | rfl | (exfalso; exact absurd hh.symm (by assumption)) | (exfalso; exact absurd hh (by assumption)) | simp_all [hasDupName, names])
+
 end Pyhf.Props.C16
